@@ -46,7 +46,8 @@ def recording_mp(rec, queue_script=None):
             self.qid = len(rec.queues)
             self.maxsize = maxsize
             rec.queues.append(self)
-            self.script = list(queue_script.get(self.qid, []))
+            sc = queue_script.get(self.qid, [])
+            self.script = sc if callable(sc) else list(sc)
             self.items = []
             if maxsize and maxsize > 0:
                 rec.ops.append(("maxsize", maxsize, self.qid))
@@ -57,9 +58,12 @@ def recording_mp(rec, queue_script=None):
 
         def get(self, block=True, timeout=None):
             rec.ops.append(("get", self.qid))
-            if not self.script:
-                raise Stop()
-            r = self.script.pop(0)
+            if callable(self.script):
+                r = self.script()
+            else:
+                if not self.script:
+                    raise Stop()
+                r = self.script.pop(0)
             if r is Empty:
                 raise Empty()
             return r
@@ -406,19 +410,37 @@ class Sched:
         """Follow `schedule` (list of actor names); afterwards optionally let every enabled actor run (fair
         round-robin) until quiescence. Returns ('ok' | 'stuck', detail)."""
         for step, a in enumerate(schedule):
-            if not self._grant(a, step_timeout):
+            ok = self._grant(a, 0.25)
+            helps = 0
+            while not ok and helps < 12:
+                # the model's steps are coarser than the real primitives in places (e.g. the dispatcher's consume+put,
+                # FIFO order of the pipes): let another enabled actor move (main first), then retry the scheduled one
+                with self.cv:
+                    names = sorted(self.waiting, key=lambda n: (n != "main", n))
+                moved = False
+                for b in names:
+                    if b != a and self._grant(b, 0.02):
+                        moved = True
+                        helps += 1
+                        break
+                ok = self._grant(a, 0.25 if moved else step_timeout / 4.0)
+                if not moved and not ok:
+                    break
+            if not ok:
                 with self.cv:
                     w = dict((k, v[0]) for k, v in self.waiting.items())
                 return ("stuck", step, a, w)
         if free_run:
             idle = 0
-            while idle < 3:
+            grants = 0
+            while idle < 3 and grants < 400:
                 progressed = False
                 with self.cv:
                     names = sorted(self.waiting)
                 for a in names:
                     if self._grant(a, 0.05):
                         progressed = True
+                        grants += 1
                 if not progressed:
                     idle += 1
                     time.sleep(0.03)
@@ -590,3 +612,225 @@ def replay(run_entry_with_cb, schedule, step_timeout=3.0, snapshot=None):
     result["log"] = list(S.log)
     result["procs"] = [(p.name, p.exited, p.exitcode) for p in state.procs]
     return result
+
+
+# ------------------------------------------------------------------ 5. the walk protocol (dispatcher + workers, two queues)
+
+def learn_dispatcher(make_pyramid, parent, children, depth_label=""):
+    """Learn the REAL dispatcher's release behaviour for one parent by driving Pyramid.walk(parallel=2) against
+    recording fakes: for every pattern of dead children and every order in which the live children are reported,
+    observe after which report the parent is put on the ready queue, and whether reporting the apex ends the loop.
+
+    make_pyramid(live_set) -> Pyramid whose `children[i]` is live iff i in live_set (parent must be the apex or be
+    reported upward).  Returns R: {(dead_mask, reported_mask_before, bit) -> released_now(bool)} and facts."""
+    R = {}
+    facts = dict(runs=0, seeds_ok=True, frame_ok=True, apex_break=None)
+    for dead in range(15):
+        live = [i for i in range(4) if not (dead >> i) & 1]
+        for order in itertools.permutations(live):
+            rec = Recorder()
+            state = dict(k=0, released_at=None, fed_parent=False)
+
+            def responder(rec=rec, state=state, order=order):
+                # what happened since the previous get?
+                if state["k"] > 0 and state["released_at"] is None:
+                    puts = [op for op in rec.ops[state["mark"]:] if op[0] == "put" and op[1] == 0]
+                    if any(op[2] == parent for op in puts):
+                        state["released_at"] = state["k"] - 1
+                    others = [op for op in puts if op[2] != parent]
+                    if others:
+                        facts["frame_ok"] = False
+                state["mark"] = len(rec.ops)
+                if state["k"] < len(order):
+                    c = children[order[state["k"]]]
+                    state["k"] += 1
+                    return c
+                if state["released_at"] is not None and not state["fed_parent"]:
+                    state["fed_parent"] = True
+                    state["k"] += 1
+                    return parent
+                raise Stop()
+
+            fake = recording_mp(rec, {1: responder})
+            pyr = make_pyramid(set(live))
+            with patched_mp(fake):
+                try:
+                    pyr.walk(lambda pos: None, parallel=2)
+                    returned = True
+                except Stop:
+                    returned = False
+            facts["runs"] += 1
+            seeds = [op[2] for op in rec.ops if op[0] == "put" and op[1] == 0 and op[2] in children]
+            if sorted(seeds) != sorted(children[i] for i in live):
+                facts["seeds_ok"] = False
+            # record the table entries of this run
+            rep = 0
+            for j, i in enumerate(order):
+                R[(dead, rep, i)] = (state["released_at"] == j)
+                rep |= 1 << i
+                if state["released_at"] is not None and state["released_at"] <= j:
+                    break
+            if state["fed_parent"]:
+                facts["apex_break"] = returned if facts["apex_break"] in (None, returned) else "inconsistent"
+    return R, facts
+
+
+WT_NOTREADY, WT_RBUF, WT_RPIPE, WT_HELD, WT_RUN, WT_CBDONE, WT_DBUF, WT_DPIPE, WT_CONS, WT_LOST = range(10)
+
+
+def walk_ts(tree, n_workers, R, worker_post, done_maxsize, shutdown, fault=False, max_live_seeds=None, apex_breaks=True):
+    """tree: list of dicts(name, parent (index or None), bit, seed (bool: level == depth-1)).  The last entry is the apex.
+    Liveness of every seed tile is a symbolic Boolean; an upper tile is live iff one of its children in the tree is.
+    R: learned release table; shutdown: producer ops after the loop, e.g. ['close','join_thread','set','join','join'].
+    """
+    ts = bmc.TS("walk")
+    N, W = len(tree), n_workers
+    kids = {p: [i for i, t in enumerate(tree) if t["parent"] == p] for p in range(N)}
+    live_seed = {i: z3.Bool("live_%s" % t["name"]) for i, t in enumerate(tree) if t["seed"]}
+    live = {}
+
+    def liveness(i):
+        if i in live:
+            return live[i]
+        if tree[i]["seed"]:
+            live[i] = live_seed[i]
+        else:
+            live[i] = z3.Or(*[liveness(c) for c in kids[i]]) if kids[i] else z3.BoolVal(False)
+        return live[i]
+
+    for i in range(N):
+        liveness(i)
+    apex = N - 1
+    ts.param(z3.Bool("dummy_param"), liveness(apex))          # something to do: the apex is live
+    if max_live_seeds is not None:
+        ts.param_constraints.append(z3.PbLe([(v, 1) for v in live_seed.values()], max_live_seeds))
+    fitem = None
+    if fault:
+        fitem = z3.BitVec("fault_tile", 4)
+        ts.param(fitem, z3.ULT(fitem, N), z3.Or(*[z3.And(fitem == i, liveness(i)) for i in range(N)]))
+    ts.fault_item = fitem
+    ts.live = live
+    ts.live_seed = live_seed
+    for i, t in enumerate(tree):
+        init = z3.If(liveness(i), bmc.bv(WT_RBUF, 4), bmc.bv(WT_NOTREADY, 4)) if t["seed"] else bmc.bv(WT_NOTREADY, 4)
+        ts.var("st%d" % i, 4, init)
+        ts.var("ow%d" % i, 3, 0)
+        ts.var("cb%d" % i, 2, 0)           # completed callbacks
+        ts.var("rep%d" % i, 4, 0)          # children of i reported so far (mask)
+    ts.var("pcd", 5, 0)                    # 0 = dispatch loop; 1.. = shutdown script position + 1
+    ts.var("flag", 1, 0)
+    ts.var("err", 1, 0)
+    ts.var("raised", 1, 0)
+    for w in range(W):
+        ts.var("wx%d" % w, 2, 0)           # 0 running, 1 exited, 2 dead
+
+    def dead_mask(p):
+        m = bmc.bv(0, 4)
+        for b in range(4):
+            c = [k for k in kids[p] if tree[k]["bit"] == b]
+            d = z3.Not(liveness(c[0])) if c else z3.BoolVal(True)
+            m = m | z3.If(d, bmc.bv(1 << b, 4), bmc.bv(0, 4))
+        return m
+
+    def released_now(p, bit, s):
+        dm = dead_mask(p)
+        opts = [z3.And(dm == d, s["rep%d" % p] == rep) for (d, rep, b), rel in R.items() if b == bit and rel]
+        return z3.Or(*opts) if opts else z3.BoolVal(False)
+
+    # ---- dispatcher: consume a completion report
+    for i, t in enumerate(tree):
+        p = t["parent"]
+        g = (lambda i: (lambda s: z3.And(s["pcd"] == 0, s["st%d" % i] == WT_DPIPE)))(i)
+        if p is None:
+            if apex_breaks:
+                ts.t("consume %s" % t["name"], "main", g, (lambda i: (lambda s: {"st%d" % i: bmc.bv(WT_CONS, 4), "pcd": bmc.bv(1, 5)}))(i))
+            else:
+                ts.t("consume %s" % t["name"], "main", g, (lambda i: (lambda s: {"st%d" % i: bmc.bv(WT_CONS, 4)}))(i))
+        else:
+            def upd(s, i=i, p=p, bit=t["bit"]):
+                rel = released_now(p, bit, s)
+                stp = s["st%d" % p]
+                return {"st%d" % i: bmc.bv(WT_CONS, 4), "rep%d" % p: s["rep%d" % p] | bmc.bv(1 << bit, 4),
+                        "st%d" % p: z3.If(rel, bmc.bv(WT_RBUF, 4), stp),
+                        "err": z3.If(z3.And(rel, stp != WT_NOTREADY), bmc.bv(1, 1), s["err"])}
+            ts.t("consume %s" % t["name"], "main", g, upd)
+    # ---- dispatcher: shutdown script
+    def rbuf_empty(s):
+        return z3.And(*[s["st%d" % i] != WT_RBUF for i in range(N)])
+
+    for k, op in enumerate(shutdown):
+        at = (lambda k: (lambda s: s["pcd"] == k + 1))(k)
+        nx = (lambda k: (lambda s: {"pcd": bmc.bv(k + 2, 5)}))(k)
+        if op == "join_thread":
+            ts.t("join_thread", "main", (lambda k: (lambda s: z3.And(s["pcd"] == k + 1, rbuf_empty(s))))(k), nx)
+        elif op == "set":
+            ts.t("set", "main", at, (lambda k: (lambda s: {"pcd": bmc.bv(k + 2, 5), "flag": bmc.bv(1, 1)}))(k))
+        elif op[0] == "join":
+            w = op[1]
+            ts.t("join w%d" % w, "main", (lambda k, w: (lambda s: z3.And(s["pcd"] == k + 1, s["wx%d" % w] != 0)))(k, w), nx)
+        elif op[0] == "exitcode":
+            w = op[1]
+            ts.t("exitcode w%d" % w, "main", at, (lambda k, w: (lambda s: {"pcd": bmc.bv(k + 2, 5), "raised": z3.If(s["wx%d" % w] == 2, bmc.bv(1, 1), s["raised"])}))(k, w))
+        else:
+            ts.t(str(op), "main", at, nx)
+    ts.end_pcd = len(shutdown) + 1
+    # a dispatcher that polls worker liveness inside its loop notices a dead worker on a time-out
+    ts.loop_checks_alive = False
+    # ---- feeders
+    for i, t in enumerate(tree):
+        ts.t("flush-ready %s" % t["name"], "feeder:main", (lambda i: (lambda s: s["st%d" % i] == WT_RBUF))(i), (lambda i: (lambda s: {"st%d" % i: bmc.bv(WT_RPIPE, 4)}))(i))
+        ts.t("flush-done %s" % t["name"], "feeder:w", (lambda i: (lambda s: s["st%d" % i] == WT_DBUF))(i), (lambda i: (lambda s: {"st%d" % i: bmc.bv(WT_DPIPE, 4)}))(i))
+    # ---- workers
+    def busy(s, w):
+        return z3.Or(*[z3.And(z3.Or(s["st%d" % i] == WT_HELD, s["st%d" % i] == WT_RUN, s["st%d" % i] == WT_CBDONE), s["ow%d" % i] == w) for i in range(N)])
+
+    def n_done_outstanding(s):
+        return sum([z3.If(z3.Or(s["st%d" % i] == WT_DBUF, s["st%d" % i] == WT_DPIPE), bmc.bv(1, 5), bmc.bv(0, 5)) for i in range(N)], bmc.bv(0, 5))
+
+    def rpipe_empty(s):
+        return z3.And(*[s["st%d" % i] != WT_RPIPE for i in range(N)])
+
+    put_first = tuple(worker_post) == ("put", "cb")
+    for w in range(W):
+        alive = (lambda w: (lambda s: s["wx%d" % w] == 0))(w)
+        for i, t in enumerate(tree):
+            st, ow, cb = "st%d" % i, "ow%d" % i, "cb%d" % i
+            ts.t("get w%d %s" % (w, t["name"]), "w%d" % w,
+                 (lambda w, st: (lambda s: z3.And(s["wx%d" % w] == 0, z3.Not(busy(s, w)), s[st] == WT_RPIPE)))(w, st),
+                 (lambda st, ow, w: (lambda s: {st: bmc.bv(WT_HELD, 4), ow: bmc.bv(w, 3)}))(st, ow, w))
+            mine = (lambda w, st, ow, val: (lambda s: z3.And(s["wx%d" % w] == 0, s[st] == val, s[ow] == w)))
+            # child-before-parent safety is checked at the moment the callback starts
+            def start_upd(s, i=i, st=st):
+                viol = z3.Or(*[z3.And(liveness(c), s["cb%d" % c] == 0) for c in kids[i]]) if kids[i] else z3.BoolVal(False)
+                return {st: bmc.bv(WT_RUN, 4), "err": z3.If(viol, bmc.bv(1, 1), s["err"])}
+            if not put_first:
+                ts.t("cb_start w%d %s" % (w, t["name"]), "w%d" % w, mine(w, st, ow, WT_HELD), start_upd)
+                if fault:
+                    ts.t("cb_end w%d %s" % (w, t["name"]), "w%d" % w, (lambda w, st, ow, i: (lambda s: z3.And(s["wx%d" % w] == 0, s[st] == WT_RUN, s[ow] == w, fitem != i)))(w, st, ow, i),
+                         (lambda st, cb: (lambda s: {st: bmc.bv(WT_CBDONE, 4), cb: s[cb] + 1}))(st, cb))
+                    ts.t("cb_raise w%d %s" % (w, t["name"]), "w%d" % w, (lambda w, st, ow, i: (lambda s: z3.And(s["wx%d" % w] == 0, s[st] == WT_RUN, s[ow] == w, fitem == i)))(w, st, ow, i),
+                         (lambda st, w: (lambda s: {st: bmc.bv(WT_LOST, 4), "wx%d" % w: bmc.bv(2, 2)}))(st, w))
+                else:
+                    ts.t("cb_end w%d %s" % (w, t["name"]), "w%d" % w, mine(w, st, ow, WT_RUN), (lambda st, cb: (lambda s: {st: bmc.bv(WT_CBDONE, 4), cb: s[cb] + 1}))(st, cb))
+                ts.t("put-done w%d %s" % (w, t["name"]), "w%d" % w,
+                     (lambda w, st, ow: (lambda s: z3.And(s["wx%d" % w] == 0, s[st] == WT_CBDONE, s[ow] == w, z3.ULT(n_done_outstanding(s), done_maxsize))))(w, st, ow),
+                     (lambda st: (lambda s: {st: bmc.bv(WT_DBUF, 4)}))(st))
+            else:
+                # a worker that reports BEFORE running the callback: the report may be consumed while the callback still runs
+                raise HarnessError("worker reports completion before running the callback (order %r): not modelled — child-before-parent is violated by construction" % (worker_post,))
+        own_dbuf_empty = (lambda w: (lambda s: z3.And(*[z3.Not(z3.And(s["st%d" % i] == WT_DBUF, s["ow%d" % i] == w)) for i in range(N)])))(w)
+        ts.t("exit w%d" % w, "w%d" % w,
+             (lambda w, ode: (lambda s: z3.And(s["wx%d" % w] == 0, z3.Not(busy(s, w)), rpipe_empty(s), s["flag"] == 1, ode(s))))(w, own_dbuf_empty),
+             (lambda w: (lambda s: {"wx%d" % w: bmc.bv(1, 2)}))(w))
+    ts.N, ts.W, ts.tree = N, W, tree
+    ts.max_steps = N * 8 + len(shutdown) + W + 2
+    return ts
+
+
+def walk_good_final(ts, s):
+    conj = [s["pcd"] == ts.end_pcd, s["err"] == 0]
+    for i in range(ts.N):
+        conj.append(z3.If(ts.live[i], z3.And(s["st%d" % i] == WT_CONS, s["cb%d" % i] == 1), z3.And(s["st%d" % i] == WT_NOTREADY, s["cb%d" % i] == 0)))
+    for w in range(ts.W):
+        conj.append(s["wx%d" % w] == 1)
+    return z3.And(*conj)
